@@ -83,6 +83,20 @@ C01Part(d) ==
            tiny == IF ty = "f32" THEN -60 ELSE -500
            data == RandSample(600 + i, 200, 5000, 0) @@ [scale |-> [p |-> IF sg = 1 THEN big ELSE tiny]] IN
        EmitStyles("arith", ty, ki, li, data)
+  \* observations that are exactly zero, and observations whose SQUARE underflows to zero (3 * 2^-600 / 3 * 2^-100)
+  /\ \A ty \in {"f64", "f32"} : \A li \in {8, 12} : \A ki \in 1..3 : \A s \in 1..4 :
+       LET tp == IF ty = "f32" THEN -100 ELSE -600
+           data == CASE s = 1 -> [rle |-> << <<V(0, 0), 3>>, <<V(5, 0), 4>>, <<V(-2, 0), 2>> >>, order |-> "interleave"]
+                     [] s = 2 -> [rle |-> << <<V(3, tp), 2>>, <<V(1, 0), 3>>, <<V(2, 0), 2>> >>, order |-> "interleave"]
+                     [] s = 3 -> [rle |-> << <<V(0, 0), 1>>, <<V(1, 0), 1>> >>, order |-> "asc"]
+                     [] s = 4 -> [rle |-> << <<V(1, 0), 1>>, <<V(0, 0), 1>>, <<V(-1, 0), 1>>, <<V(0, 0), 1>> >>, order |-> "asc"] IN
+       EmitStyles("arith", ty, ki, li, data)
+  \* magnitudes at which every SQUARE leaves the float range (about 5000 * 2^70 in f32, 5000 * 2^520 in f64): the documented
+  \* outcome is an error; an interval, if one is returned, is judged like any other
+  /\ \A ty \in {"f64", "f32"} : \A li \in {8, 12} : \A ki \in 1..3 :
+       LET data == RandSample(650, 20, 5000, 0) @@ [scale |-> [p |-> IF ty = "f32" THEN 70 ELSE 520]] IN
+       \A si \in DOMAIN MeanStyles :
+          Emit(MeanCase("arith", ty, MeanStyles[si], ki, li, data, si = 1, IF si = 1 THEN "base" ELSE "style") @@ [ovf |-> TRUE])
   /\ \A b \in DOMAIN BigNs : \A ty \in {"f64", "f32"} : \A li \in {2, 7, 8, 12, 19} : \A ki \in 1..3 :
        LET n == BigNs[b]
            data == [rle |-> << <<V(-3, -1), n \div 3>>, <<V(5, 0), n \div 3>>, <<V(64, 0), n - 2 * (n \div 3)>> >>,
@@ -258,9 +272,22 @@ FoldData(k, n) ==
                    order |-> "interleave"]                                          \* mixed signs, negative total
 FoldNs == IF Thorough THEN <<1000, 8192, 20000, 300000, 1000000>> ELSE <<1000, 8192, 20000, 300000>>
 C09FoldPart(d) ==
-  \A k \in 1..4 : \A ni \in DOMAIN FoldNs : \A ty \in {"f64", "f32"} : \A li \in {8, 14} : \A ki \in 1..3 :
-     \A si \in DOMAIN FoldStyles :
-        Emit(MeanCase("arith", ty, FoldStyles[si], ki, li, FoldData(k, FoldNs[ni]), si = 1, IF si = 1 THEN "base" ELSE "merge"))
+  /\ \A k \in 1..4 : \A ni \in DOMAIN FoldNs : \A ty \in {"f64", "f32"} : \A li \in {8, 14} : \A ki \in 1..3 :
+       \A si \in DOMAIN FoldStyles :
+          Emit(MeanCase("arith", ty, FoldStyles[si], ki, li, FoldData(k, FoldNs[ni]), si = 1, IF si = 1 THEN "base" ELSE "merge"))
+  \* the same histories on data of tiny magnitude (2^-60 in f64, 2^-30 in f32: every partial sum is far below the epsilon
+  \* of the type, none is zero) and of large magnitude (2^40 / 2^20)
+  /\ \A k \in 1..4 : \A ni \in 1..2 : \A ty \in {"f64", "f32"} : \A sg \in {-1, 1} : \A ki \in 1..3 :
+       LET sc == IF sg = -1 THEN (IF ty = "f32" THEN -30 ELSE -60) ELSE (IF ty = "f32" THEN 20 ELSE 40) IN
+       \A si \in DOMAIN FoldStyles :
+          Emit(MeanCase("arith", ty, FoldStyles[si], ki, 8, FoldData(k, FoldNs[ni]) @@ [scale |-> [p |-> sc]], si = 1,
+                        IF si = 1 THEN "base" ELSE "merge") @@ [magnitude |-> IF sg = -1 THEN "tiny" ELSE "large"])
+  \* more observations than a f32 can count (2^24 + 2^20 + 1), in ONE state and as merged partial states
+  /\ \A ki \in 1..3 : \A si \in {1, 5, 7, 8} :
+       LET n == 17825793
+           data == [rle |-> << <<V(-3, -1), n \div 3>>, <<V(5, 0), n \div 3>>, <<V(64, 0), n - 2 * (n \div 3)>> >>, order |-> "interleave"] IN
+       Emit(MeanCase("arith", "f32", IF si = 1 THEN "extend" ELSE FoldStyles[si], ki, 8, data, si = 1, IF si = 1 THEN "base" ELSE "merge")
+            @@ [beyond_f32_count |-> TRUE])
 
 Next == /\ ~done
         /\ done' = TRUE
